@@ -175,6 +175,21 @@ type SetMetadataLogPayload struct {
 	Metadata   metadata.Metadata `json:"metadata"`
 }
 
+// unmarshalTargetID decodes the targetId of a metadata log according to its target type:
+// an account address (string) or a transaction id (uint64).
+func unmarshalTargetID(targetType string, data json.RawMessage) (any, error) {
+	switch strings.ToUpper(targetType) {
+	case strings.ToUpper(MetaTargetTypeAccount):
+		var id interface{} = ""
+		err := json.Unmarshal(data, &id)
+		return id, err
+	case strings.ToUpper(MetaTargetTypeTransaction):
+		return strconv.ParseUint(string(data), 10, 64)
+	default:
+		panic("unknown type")
+	}
+}
+
 func (s *SetMetadataLogPayload) UnmarshalJSON(data []byte) error {
 	type X struct {
 		TargetType string            `json:"targetType"`
@@ -186,16 +201,7 @@ func (s *SetMetadataLogPayload) UnmarshalJSON(data []byte) error {
 	if err != nil {
 		return err
 	}
-	var id interface{}
-	switch strings.ToUpper(x.TargetType) {
-	case strings.ToUpper(MetaTargetTypeAccount):
-		id = ""
-		err = json.Unmarshal(x.TargetID, &id)
-	case strings.ToUpper(MetaTargetTypeTransaction):
-		id, err = strconv.ParseUint(string(x.TargetID), 10, 64)
-	default:
-		panic("unknown type")
-	}
+	id, err := unmarshalTargetID(x.TargetType, x.TargetID)
 	if err != nil {
 		return err
 	}
@@ -222,6 +228,30 @@ type DeleteMetadataLogPayload struct {
 	TargetType string `json:"targetType"`
 	TargetID   any    `json:"targetId"`
 	Key        string `json:"key"`
+}
+
+func (s *DeleteMetadataLogPayload) UnmarshalJSON(data []byte) error {
+	type X struct {
+		TargetType string          `json:"targetType"`
+		TargetID   json.RawMessage `json:"targetId"`
+		Key        string          `json:"key"`
+	}
+	x := X{}
+	err := json.Unmarshal(data, &x)
+	if err != nil {
+		return err
+	}
+	id, err := unmarshalTargetID(x.TargetType, x.TargetID)
+	if err != nil {
+		return err
+	}
+
+	*s = DeleteMetadataLogPayload{
+		TargetType: x.TargetType,
+		TargetID:   id,
+		Key:        x.Key,
+	}
+	return nil
 }
 
 func NewDeleteMetadataLog(at Time, payload DeleteMetadataLogPayload) *Log {
@@ -283,6 +313,8 @@ func HydrateLog(_type LogType, data []byte) (any, error) {
 		payload = &SetMetadataLogPayload{}
 	case RevertedTransactionLogType:
 		payload = &RevertedTransactionLogPayload{}
+	case DeleteMetadataLogType:
+		payload = &DeleteMetadataLogPayload{}
 	default:
 		panic("unknown type " + _type.String())
 	}
